@@ -113,6 +113,13 @@ def _ctx():
         lambda h, i: ("switch", h, [(1, ("val", "one")), (2, ("opt", _q(i, "s"), ("val", "q")))], ("val", "dflt")),
         lambda i: [(_q(i, "s"), [ABSENT, "Q"])],
     )
+    add(
+        "switch_mixed",
+        ("h",),
+        H,
+        # aliases of different types that cannot be ordered; no default
+        lambda h, i: ("switch", h, [(1, ("val", "one")), ("k", ("val", "kay")), (None, ("val", "none")), ((2, "t"), ("val", "tup"))], None),
+    )
     add("switch_disp_nd", ("h",), H, lambda h, i: ("switch", h, [(1, ("val", "one")), (2, ("val", "two"))], None))
     add(
         "switch_branch",
@@ -245,6 +252,9 @@ def _ctx():
     add("wdo_SY", ANY, same, lambda h, i: ("withopt", h, {"S": {"Y": 9}}, False))
     add("cached", EAGER, same, lambda h, i: ("cached", h, f"c{i}"))
     add("ds_param", EAGER, tag, lambda h, i: ("ds", f"dp{i}", {"params": [h]}))
+    # datasets defined from an expression instead of a function
+    add("ds_of_ev", EAGER, same, lambda h, i: ("ds", f"dx{i}", {"definition": h}))
+    add("ds_of_ev_opts", EAGER, tag, lambda h, i: ("ds", f"dy{i}", {"definition": h, "options": {"A": 9}, "default_options": {"B": 9}, "callback": ("fn", f"cb{i}")}))
     add("ds_nocache", EAGER, tag, lambda h, i: ("ds", f"dn{i}", {"params": [h], "cache": "none"}))
     add(
         "ds_dispatch",
@@ -380,6 +390,17 @@ EXTRAS = [
     ("x:case_raw", ("case", ("opt", "A", ("val", 0)), [(("fn", "p_eq:1"), _R([1, 2]))], _R(0)), [A3]),
     ("x:map_raw", ("apply", ("mapvalues", ("opt", "A"), [("A", _R([1, 2]))]), ("fn", "f_list")), []),
     ("x:optdefault_raw", ("opt", "A", _R([1, [2]])), [A3]),
+    # lift(): plain falsy constants given for parameters that also have (other) signature defaults
+    ("x:falift_falsy", ("falift", "g0", {"a": _R(0), "b": _R(""), "c": _R(None)}), []),
+    ("x:falift_falsy2", ("falift", "g0", {"a": ("opt", "A"), "b": _R(False), "c": _R([])}), [A3]),
+    ("x:palift_falsy", ("apply", ("opt", "A"), ("palift", "g0", {"b": _R(0), "c": _R({})})), [A3]),
+    ("x:palift_opt", ("apply", ("val", 1), ("palift", "g0", {"c": ("opt", "A", _R(None))})), [A3]),
+    # a function that modifies what it is given: literal arguments must arrive fresh at every evaluation
+    ("x:fa_mutating_literal", ("fa", "f_mutate", [_R([1, [2], {"k": [3]}])], {}), []),
+    ("x:fa_mutating_literal_kw", ("tuple", [("fa", "f_mutate", [], {"x": _R({"k": [3]})}), ("opt", "A", ("val", 0))]), [A3]),
+    # a constant container default that happens to hold brace syntax is a constant (only str defaults are templates)
+    ("x:optdefault_raw_braces", ("opt", "A", _R(["{B}", 1])), [A3, B3]),
+    ("x:optdefault_val_braces", ("opt", "A", ("val", {"K": "{B}"})), [A3, B3]),
 ]
 
 
